@@ -8,7 +8,7 @@
 (* h names the receiving session (one replay state per session).           *)
 (* {"ev":"reset","h":H}                                                    *)
 (* {"ev":"unseal","h":H,"cls":C,"mut":[regions],"rel":R,"seq":N,          *)
-(*  "ok":B,"same":B,"clear":B}                                             *)
+(*  "ok":B,"dup":B,"same":B,"clear":B}                                     *)
 (***************************************************************************)
 EXTENDS FrameSeal
 
@@ -33,6 +33,10 @@ Unseal == /\ Ev.ev = "unseal"
           /\ Ev.h \in DOMAIN acc
           /\ Ev.ok => (Intact /\ RelOK /\ Fresh)             \* nothing altered / foreign / replayed is delivered
           /\ Ev.ok => Ev.same                                  \* delivered payload is the original
+          \* a hop ping refused as "immediate duplicate" is handed to its handler all the same (the router tolerates
+          \* that one error: announcements arrive once per peer): only an UNALTERED copy of the newest frame this
+          \* session has accepted may get that far
+          /\ Ev.dup => (Intact /\ RelOK /\ Ev.cls = "signed" /\ Ev.seq = newest[Ev.h] /\ Ev.same)
           /\ (Intact /\ RelOK /\ Fresh /\ InWindow) => Ev.ok   \* untouched fresh frames do unseal
           /\ (Ev.cls # "signed") => ~Ev.clear                  \* encrypted classes never carry the payload in clear
           /\ acc' = IF Ev.ok THEN [acc EXCEPT ![Ev.h] = @ \cup {Ev.seq}] ELSE acc
